@@ -85,9 +85,10 @@ Definition spec_codes (obs : cresult) (disasm : option (list N)) : list N :=
   | COk B =>
       if negb (wf_check_gen false B) || negb (disasm_ok B disasm) then [2]
       else
-        let u := untraced B in
-        if existsb (fun pi => negb (is_close_upvalue (snd pi))) u then [2]
-        else (if wf_check B then [] else [10]) ++ (match u with [] => [] | _ => [11] end)
+        (* every instruction has a trace entry (A-24, the untraced CloseUpvalue of scope_end, is repaired
+           in /repo: it is an ordinary violation again); the legacy MAX_STR_LEN window (A-23, repaired)
+           is no longer part of the specification *)
+        match untraced B with [] => [] | _ => [2] end
   | _ => []
   end.
 
